@@ -104,8 +104,15 @@ def showDump (r : PyM Chunk) : String :=
   | .ok c => "x" ++ hexOfString c.text
   | .error e => "ERR:" ++ e.name
 
-def handle : Handler
-  | "E" :: rest =>
+/-- split a token list at the separator `;` -/
+def splitSteps : List String → List (List String)
+  | [] => [[]]
+  | ";" :: r => [] :: splitSteps r
+  | t :: r => match splitSteps r with
+    | p :: ps => (t :: p) :: ps
+    | [] => [[t]]
+
+def handleE (rest : List String) : String :=
       match rdE rest with
       | some (e, []) =>
           let isWf := wf e
@@ -127,6 +134,12 @@ def handle : Handler
             "dump=" ++ (match target with | some t => showDump (dump (toTree t)) | none => "none"),
             "reparse=" ++ reparse]
       | _ => "bad-op"
+
+def handle : Handler
+  | "E" :: rest => handleE rest
+  -- a sequence of expressions parsed one after the other: the model is a function of the token string
+  -- alone (no state between calls), so the answer is the list of the single answers
+  | "S" :: rest => " ;; ".intercalate ((splitSteps rest).map handleE)
   | "P" :: rest =>
       match rest.mapM readTok with
       | some ts => (match parse ts with | some e => "tree=" ++ (toTree e).show | none => "none")
